@@ -2,6 +2,7 @@
 use crate::framework::Scenario;
 
 pub mod common;
+pub mod c12;
 pub mod c13;
 pub mod c14;
 pub mod c15;
@@ -25,7 +26,7 @@ pub mod c38;
 pub mod c39;
 
 pub fn all() -> Vec<&'static dyn Scenario> {
-    vec![&c13::C13, &c14::C14, &c15::C15, &c16::C16, &c17::C17, &c18::C18, &c19::C19, &c20::C20, &c24::C24, &c25::C25, &c26::C26, &c28::C28, &c29::C29, &c30::C30, &c31::C31, &c32::C32, &c33::C33, &c36::C36, &c37::C37, &c38::C38, &c39::C39]
+    vec![&c12::C12, &c13::C13, &c14::C14, &c15::C15, &c16::C16, &c17::C17, &c18::C18, &c19::C19, &c20::C20, &c24::C24, &c25::C25, &c26::C26, &c28::C28, &c29::C29, &c30::C30, &c31::C31, &c32::C32, &c33::C33, &c36::C36, &c37::C37, &c38::C38, &c39::C39]
 }
 
 pub fn find(id: &str) -> Option<&'static dyn Scenario> {
